@@ -9,7 +9,8 @@ character data and attribute values, triggers of the known findings).  Helper le
 
 Hypotheses used throughout: `WfTokP` (token contents follow the XML 1.0 grammar: character data and
 attribute values are sequences of literal bytes and references) and `lexShape` (contract of the dependency
-lexer: `>` and `/>` only follow a start tag and its attributes).
+lexer: `>` and `/>` only follow a start tag and its attributes).  All theorems are at full strength for
+/repo ≥ ce8fb25 (the former guards K-C06-3…6 are fixed there).
 -/
 namespace Verif.Props.C06
 open Verif.Xml (XTok)
@@ -79,72 +80,59 @@ example : WfText "a  &#60;\n &gt; b&amp;".toList :=
   ⟨[.lit 'a', .lit ' ', .lit ' ', .dec ['6', '0'], .lit '\n', .lit ' ', .named ['g', 't'], .lit ' ', .lit 'b',
     .named ['a', 'm', 'p']], by decide, by decide, by decide⟩
 
+/-- **cdend_escape**: the `]]>` guard of `xml.go` (`escapeCDEnd`: a `>` after two `]` is written `&gt;`) does not
+change the decoded character data and keeps the data well-formed. -/
+theorem cdend_escape (n : Nat) (d : List Char) (h : d = [] ∨ WfText d) :
+    decodeText (escCD n d) = decodeText d ∧ (escCD n d = [] ∨ WfText (escCD n d)) :=
+  ⟨(escCD_text n d h).1, (escCD_text n d h).2.1⟩
+
 /-! ## the loop -/
 
-/-- **xml_infoset** (partial; guards = triggers of the open known findings K-C06-4 and K-C06-6):
-for every token stream whose tokens follow the grammar, the infoset of the emitted tokens equals the infoset
-of the input up to insignificant white space: same element starts/ends and names, same attributes with the same
-normalised values, same PIs and DOCTYPE, and per text run the same characters where white space runs may be
-collapsed and white space next to a tag (`keepWhitespace = false`) or a document boundary may be dropped — no
-word is joined, split or dropped.  Proof: induction over the token list with `omitSpace` as invariant. -/
-theorem xml_infoset_partial (o : XmlOpts) (ts : List XTok) (hwf : ∀ x ∈ ts, WfTokP x)
-    (hshape : lexShape false ts = true) (g4 : trigCdataJoin ts = false)
-    (g6 : trigKeepEmpty o.keepWhitespace ts = false) :
+/-- **xml_infoset** (full): for every token stream whose tokens follow the grammar and whose shape is the
+lexer's, the infoset of the emitted tokens equals the infoset of the input up to insignificant white space:
+same element starts/ends and names, same attributes with the same normalised values, same PIs and DOCTYPE, and
+per text run the same characters where white space runs may be collapsed and white space next to a tag
+(`keepWhitespace = false`) or a document boundary may be dropped — no word is joined, split or dropped.
+Proof: induction over the token list; invariant: `omitSpace` is set only when white space is pending in the
+output or the previous solid is soft. -/
+theorem xml_infoset (o : XmlOpts) (ts : List XTok) (hwf : ∀ x ∈ ts, WfTokP x)
+    (hshape : lexShape false ts = true) :
     wsEquiv o.keepWhitespace (infoset (emit o true ts)) (infoset ts) :=
-  loop_aux o ts.length ts (Nat.le_refl _) hwf true false false true hshape
-    (fun h => absurd h (by simp)) (fun _ => Or.inl rfl) g4 g6
+  loop_aux o ts.length ts (Nat.le_refl _) hwf true 0 false false false true hshape
+    (fun h => absurd h (by simp)) (fun _ => Or.inl rfl)
 
-/-- the full statement (no guards) -/
-def xml_infoset_full : Prop :=
-  ∀ (o : XmlOpts) (ts : List XTok), (∀ x ∈ ts, WfTokP x) → lexShape false ts = true →
-    wsEquiv o.keepWhitespace (infoset (emit o true ts)) (infoset ts)
+/-- **keep_ws_never_removed** (full): with `keepWhitespace` white space next to an element tag is never removed
+entirely (`canon true` keeps, for every tag and for every character after a tag, the bit "preceded by white
+space"; only the document boundaries are soft). -/
+theorem keep_ws_never_removed (ts : List XTok) (hwf : ∀ x ∈ ts, WfTokP x)
+    (hshape : lexShape false ts = true) :
+    canon true (infoset (emit ⟨true⟩ true ts)) = canon true (infoset ts) :=
+  xml_infoset ⟨true⟩ ts hwf hshape
 
-/-- tokens of `<a>x <![CDATA[y]]> z</a>` -/
+/-- tokens of `<a>x <![CDATA[y]]> z</a>` (former finding K-C06-4) -/
 def exJoin : List XTok :=
   [.startTag ['a'], .startTagClose, .text ['x', ' '],
    .cdata ['<', '!', '[', 'C', 'D', 'A', 'T', 'A', '[', 'y', ']', ']', '>'] ['y'], .text [' ', 'z'],
    .endTag ['<', '/', 'a', '>'] ['a']]
 
-theorem exJoin_wf : ∀ x ∈ exJoin, WfTokP x := by
-  intro x hx
-  simp only [exJoin, List.mem_cons, List.mem_nil_iff, or_false] at hx
-  rcases hx with rfl | rfl | rfl | rfl | rfl | rfl
-  · trivial
-  · trivial
-  · exact ⟨[.lit 'x', .lit ' '], by decide, by decide, by decide⟩
-  · intro c hc; revert c; decide
-  · exact ⟨[.lit ' ', .lit 'z'], by decide, by decide, by decide⟩
-  · trivial
-
-/-- K-C06-4: `<a>x <![CDATA[y]]> z</a>` is minified to `<a>x yz</a>` — the words `y` and `z` are joined. -/
-theorem xml_infoset_counterexample : ¬ xml_infoset_full := fun h =>
-  absurd (h ⟨false⟩ exJoin exJoin_wf (by decide)) (by decide)
-
-/-- tokens of `<b> </b>` -/
+/-- tokens of `<b> </b>` (former finding K-C06-6) -/
 def exKeep : List XTok :=
   [.startTag ['b'], .startTagClose, .text [' '], .endTag ['<', '/', 'b', '>'] ['b']]
 
-theorem exKeep_wf : ∀ x ∈ exKeep, WfTokP x := by
-  intro x hx
-  simp only [exKeep, List.mem_cons, List.mem_nil_iff, or_false] at hx
-  rcases hx with rfl | rfl | rfl | rfl
-  · trivial
-  · trivial
-  · exact ⟨[.lit ' '], by decide, by decide, by decide⟩
-  · trivial
+/-- tokens of `<a>]]&gt;</a>` (former finding K-C06-3) -/
+def exCdEnd : List XTok :=
+  [.startTag ['a'], .startTagClose, .text [']', ']', '&', 'g', 't', ';'], .endTag ['<', '/', 'a', '>'] ['a']]
 
-/-- K-C06-6: with `keepWhitespace` the element `<b> </b>` is collapsed to `<b/>`: the white space next to the
-tags is removed entirely. -/
-theorem keep_ws_counterexample :
-    ¬ wsEquiv true (infoset (emit ⟨true⟩ true exKeep)) (infoset exKeep) := by decide
+/-- tokens of `<?php echo "x"; ?><a/>` (former finding K-C06-5) -/
+def exPi : List XTok :=
+  [.startTagPI ['p', 'h', 'p'], .attrBare [' ', 'e', 'c', 'h', 'o'] ['e', 'c', 'h', 'o'],
+   .attrBare [' ', '"', 'x', '"', ';'] ['"', 'x', '"', ';'], .startTagClosePI, .startTag ['a'], .startTagCloseVoid]
 
-/-- **keep_ws_never_removed**: with `keepWhitespace` white space next to an element tag is never removed
-entirely (`canon true` keeps, for every tag and for every character after a tag, the bit "preceded by white
-space"; only the document boundaries are soft).  Guard: K-C06-4, K-C06-6. -/
-theorem keep_ws_never_removed (ts : List XTok) (hwf : ∀ x ∈ ts, WfTokP x)
-    (hshape : lexShape false ts = true) (g4 : trigCdataJoin ts = false) (g6 : trigKeepEmpty true ts = false) :
-    canon true (infoset (emit ⟨true⟩ true ts)) = canon true (infoset ts) :=
-  xml_infoset_partial ⟨true⟩ ts hwf hshape g4 g6
+/-- the inputs of the findings fixed in /repo are minified correctly by the model of the current code -/
+example : xmlMinify ⟨false⟩ exJoin = "<a>x y z</a>".toList ∧ xmlMinify ⟨true⟩ exJoin = "<a>x y z</a>".toList ∧
+    xmlMinify ⟨true⟩ exKeep = "<b> </b>".toList ∧ xmlMinify ⟨false⟩ exKeep = "<b/>".toList ∧
+    xmlMinify ⟨false⟩ exCdEnd = "<a>]]&gt;</a>".toList ∧
+    xmlMinify ⟨false⟩ exPi = "<?php echo \"x\";?><a/>".toList := by decide
 
 /-- tokens of `<a k="v&#9;"> x <b/> y <!--c--> z</a>` -/
 def exOk : List XTok :=
@@ -152,13 +140,12 @@ def exOk : List XTok :=
    .startTag ['b'], .startTagCloseVoid, .text [' ', 'y', ' '], .comment ['<', '!', '-', '-', 'c', '-', '-', '>'],
    .text [' ', 'z'], .endTag ['<', '/', 'a', '>'] ['a']]
 
-/-- the hypotheses of `xml_infoset_partial` / `keep_ws_never_removed` are satisfiable by a document with mixed
-content, an attribute with a reference, a comment and white space next to tags -/
-example : (∀ x ∈ exOk, WfTokP x) ∧ lexShape false exOk = true ∧ trigCdataJoin exOk = false ∧
-    trigKeepEmpty true exOk = false ∧ trigKeepEmpty false exOk = false ∧
+/-- the hypotheses of `xml_infoset` / `keep_ws_never_removed` / `xml_wellformed` are satisfiable by a document
+with mixed content, an attribute with a reference, a comment and white space next to tags -/
+example : (∀ x ∈ exOk, WfTokP x) ∧ lexShape false exOk = true ∧ bareInPI false exOk = true ∧
     xmlMinify ⟨false⟩ exOk = "<a k=\"v&#9;\">x<b/> y z</a>".toList ∧
     xmlMinify ⟨true⟩ exOk = "<a k=\"v&#9;\"> x <b/> y z</a>".toList := by
-  refine ⟨?_, by decide, by decide, by decide, by decide, by decide, by decide⟩
+  refine ⟨?_, by decide, by decide, by decide, by decide⟩
   intro x hx
   simp only [exOk, List.mem_cons, List.mem_nil_iff, or_false] at hx
   rcases hx with rfl | rfl | rfl | rfl | rfl | rfl | rfl | rfl | rfl | rfl
@@ -173,54 +160,39 @@ example : (∀ x ∈ exOk, WfTokP x) ∧ lexShape false exOk = true ∧ trigCdat
   · exact ⟨[.lit ' ', .lit 'z'], by decide, by decide, by decide⟩
   · trivial
 
-/-- **comments_only_removed** (full, no guard): every item of the infoset other than character data — element
-starts and ends, attributes with their normalised values, processing instructions, DOCTYPE — is emitted, in
-order and unchanged; comments (which are not part of `infoset`) are the only tokens that disappear without
-trace, and nothing is added. -/
+/-- **comments_only_removed** (full): every item of the infoset other than character data — element starts and
+ends, attributes with their normalised values, processing instructions, DOCTYPE — is emitted, in order and
+unchanged; comments (which are not part of `infoset`) are the only tokens that disappear without trace, and
+nothing is added. -/
 theorem comments_only_removed (o : XmlOpts) (om : Bool) (ts : List XTok) (hwf : ∀ x ∈ ts, WfTokP x) :
     marks (infoset (emit o om ts)) = marks (infoset ts) :=
-  marks_aux o ts.length ts (Nat.le_refl _) hwf om
+  marks_aux o ts.length ts (Nat.le_refl _) hwf om 0 false
 
-/-- **xml_wellformed** (partial: `]]>` is not covered, see the counterexample): every emitted text token is
-character data according to the grammar (no `<`, `&` only as the start of a reference to a legal character or
-an entity), every emitted attribute value is a quoted literal without `<`, bare `&` or its own quote. -/
-theorem xml_wellformed_partial (o : XmlOpts) (om : Bool) (ts : List XTok) (hwf : ∀ x ∈ ts, WfTokP x) :
-    ∀ y ∈ emit o om ts, WfOutP y :=
-  wfout_aux o ts.length ts (Nat.le_refl _) hwf om
+/-- **xml_wellformed** (full): every emitted text token is character data according to the grammar (no `<`, `&`
+only as the start of a reference to a legal character or an entity), every emitted attribute value is a quoted
+literal without `<`, bare `&` or its own quote, and no run of emitted character data (consecutive text tokens,
+which is how the bytes are read back) contains `]]>`.  `bareInPI`: attributes without value only occur as
+words of processing-instruction data (in an element they are not well-formed XML). -/
+theorem xml_wellformed (o : XmlOpts) (ts : List XTok) (hwf : ∀ x ∈ ts, WfTokP x)
+    (hpi : bareInPI false ts = true) :
+    (∀ y ∈ emit o true ts, WfOutP y) ∧ rawCdEnd (emit o true ts) = false := by
+  refine ⟨wfout_aux o ts.length ts (Nat.le_refl _) hwf true 0 false hpi, ?_⟩
+  have h := rawfree_aux o ts.length ts (Nat.le_refl _) true 0 false [] rfl rfl
+  simp only [rawCdEnd, List.any_eq_false]
+  intro run hr
+  rw [← cdAuto_hasCdEnd]
+  simpa using h run hr
+
+example : rawCdEnd [XTok.text [']', ']'], XTok.comment [], XTok.text ['>']] = true ∧
+    rawCdEnd (emit ⟨false⟩ true [XTok.text [']', ']'], XTok.comment [], XTok.text ['>']]) = false := by decide
 
 /-- **xml_nesting** (full): element nesting is preserved — if in the input every end tag closes the innermost
 open element under its name, `/>` closes the element just opened and nothing stays open, the same holds for the
 emitted tokens (in particular after collapsing `<a></a>` to `<a/>`). -/
 theorem xml_nesting (o : XmlOpts) (om : Bool) (ts : List XTok) (st : List (List Char))
     (h : nest st ts = true) : nest st (emit o om ts) = true :=
-  nest_aux o ts.length ts (Nat.le_refl _) om st h
+  nest_aux o ts.length ts (Nat.le_refl _) om 0 false st h
 
 example : nest [] exOk = true ∧ nest [] exJoin = true := by decide
-
-/-- the full statement: additionally the emitted character data never contains `]]>` -/
-def xml_wellformed_full : Prop :=
-  ∀ (o : XmlOpts) (ts : List XTok), (∀ x ∈ ts, WfTokP x) → lexShape false ts = true →
-    (∀ d, XTok.text d ∈ ts → hasCdEnd d = false) →
-    (∀ y ∈ emit o true ts, WfOutP y) ∧ hasCdEndD (infoset (emit o true ts)) = false ∧
-      ∀ d, XTok.text d ∈ emit o true ts → hasCdEnd d = false
-
-/-- tokens of `<a>]]&gt;</a>` -/
-def exCdEnd : List XTok :=
-  [.startTag ['a'], .startTagClose, .text [']', ']', '&', 'g', 't', ';'], .endTag ['<', '/', 'a', '>'] ['a']]
-
-/-- K-C06-3: `<a>]]&gt;</a>` is minified to `<a>]]></a>`, which is not well-formed. -/
-theorem xml_wellformed_counterexample : ¬ xml_wellformed_full := fun h => by
-  have := h ⟨false⟩ exCdEnd (by
-      intro x hx
-      simp only [exCdEnd, List.mem_cons, List.mem_nil_iff, or_false] at hx
-      rcases hx with rfl | rfl | rfl | rfl
-      · trivial
-      · trivial
-      · exact ⟨[.lit ']', .lit ']', .named ['g', 't']], by decide, by decide, by decide⟩
-      · trivial) (by decide) (by
-      intro d hd
-      simp [exCdEnd] at hd
-      subst hd; decide)
-  exact absurd (this.2.2 [']', ']', '>'] (by decide)) (by decide)
 
 end Verif.Props.C06
